@@ -148,6 +148,13 @@ def C05(V, tier):
     n = 40 if tier == "quick" else 400
     progs = _programs(n, seed() + 17, "C05", max_ops=5 if tier == "quick" else 8)
     rng = random.Random(seed())
+    # loops with side inputs: the boundary behind a BinaryStart with a cached side (start_out hook)
+    side = gen.loop_programs(rng, 12 if tier == "quick" else 120, nested=False, side=True)
+    loops = gen.loop_programs(rng, 8 if tier == "quick" else 80)
+    for i, p in enumerate(side + loops):
+        p["name"] = f"l{i}_" + p["name"]
+        p["prop"] = "C05"
+    progs += side + loops
     matrix = gen.config_matrix(rng, n_local=2, n_remote=1, n_batch=2)
     jobsuite.run_suite(V, wd, progs, matrix, "C05", checks=("boundary",), perturb_us=200)
     V.assumptions += ["FlushBatch carries no content: the grammar is applied with B erased (DESIGN.md C05)"]
@@ -443,7 +450,22 @@ def C10(V, tier):
              perturb_us=300)
 
 
+def sideinput_model(V, wd, tier):
+    """comp/SideInput.tla: BinaryStartReceiver with a cached side, receive timeouts, >= 2 loop producers.
+    The configurations of the two repaired defects (F8, F10) must still produce their counterexamples."""
+    for cfg in (["SideInput_quick"] if tier == "quick" else ["SideInput_quick", "SideInput_thorough"]):
+        r = tlc_check(f"{SPEC}/comp/SideInput.tla", f"{SPEC}/mc/{cfg}.cfg", wd, cfg, workers=8, timeout=3000)
+        if not r["ok"]:
+            raise ToolError(f"model check {cfg}: {r['invariant_violated']} fails on the MODEL")
+        require_coverage(r, ["SendL", "SendS", "Next_Recv", "Next_Timeout", "Next_Pop", "Next_EmitR", "Next_EmitX"], cfg)
+        V.add_model(r, cfg)
+    for cfg, inv in (("SideInput_F8", "NothingAfterLastRound"), ("SideInput_F10", "NothingAfterLastRound")):
+        r = tlc_check(f"{SPEC}/comp/SideInput.tla", f"{SPEC}/mc/{cfg}.cfg", wd, cfg, workers=4, coverage=False)
+        V.coverage[f"{cfg}_still_fails"] = r["invariant_violated"] == inv
+
+
 def C11(V, tier):
+    sideinput_model(V, workdir("C11m"), tier)
     rng = random.Random(seed() + 11)
     _focused(V, tier, "C11", gen.loop_programs(rng, 40 if tier == "quick" else 400, nested=False, side=True),
              checks=("result", "boundary"), perturb_us=300)
